@@ -151,6 +151,16 @@ class SchemaGen:
             self.sigs[nm] = sig
             self.echo.append(nm)
             qfields.append(dict(sig))
+        # `mixed: [I]` for an interface with >= 2 runtime types and a composite field (see mixed_scenario)
+        self.mixed = None
+        for i in self.ifaces:
+            impl = [o["name"] for o in self.objs if i["name"] in o["interfaces"]]
+            comp = [f for f in i["fields"] if base(f["type"]) not in self.leaf_names and not any(is_nn(a["type"]) and not a.get("default") for a in f["args"])]
+            if len(impl) >= 2 and comp:
+                self.sigs["mixed"] = {"name": "mixed", "type": L(N(i["name"])), "args": []}
+                qfields.append(dict(self.sigs["mixed"]))
+                self.mixed = (i["name"], impl, comp[0])
+                break
         self.query = {"kind": "object", "name": "Query", "fields": qfields, "interfaces": []}
         self.types = self.scalars + self.enums + self.inputs + self.ifaces + self.objs + self.unions + [self.query]
         self.mutation = None
@@ -299,6 +309,9 @@ class SchemaGen:
         if r.random() < 0.08: return None
         if "l" in ty:
             n = r.randint(0, 3) if depth < 4 else 0
+            # lists of an abstract type: several items, so that different runtime types meet under the same field nodes
+            if depth < 3 and "n" in unwrap_nn(ty["l"]) and base(ty) not in self.leaf_names and len(self.possible(base(ty))) >= 2 and r.random() < 0.6:
+                n = r.randint(2, 4)
             items = [self.value_for(ty["l"], depth + 1, adv) for _ in range(n)]
             if items and r.random() < self.exc_items:
                 tart = r.random() < 0.5
@@ -321,6 +334,42 @@ class SchemaGen:
         if style == "attr": return {"o": "Row", "a": [["_typename", on]] + kvs}
         if style == "class": return {"o": on, "a": kvs}
         return {"d": kvs}
+
+    def mixed_scenario(self, renv):
+        """a list of one interface holding several runtime types, whose composite field `f` is selected on the
+        interface AND again inside a type-conditioned fragment: the merged field nodes of `f` differ per runtime type.
+        Installs the value in `renv`; returns query texts (or [])."""
+        if not self.mixed: return []
+        r = self.r
+        iname, impl, f = self.mixed
+        items = []
+        for k in range(r.randint(3, 5)):
+            on = impl[k % len(impl)]
+            kvs = [["_typename", on]]
+            for g in self.tdef(on)["fields"]:
+                if g["name"] == f["name"]:
+                    v = None
+                    for _ in range(20):
+                        v = self.value_for(g["type"], 2, 0.0)
+                        if v not in (None, []) and not (isinstance(v, list) and all(x is None for x in v)): break
+                    kvs.append([g["name"], v])
+                elif r.random() < 0.85:
+                    kvs.append([g["name"], self.value_for(g["type"], 3, 0.0)])
+            items.append({"d": kvs})
+        renv["resolvers"]["Query.mixed"] = {"k": "const", "v": items}
+        rt = self.tdef(base(f["type"]))
+        def sels():
+            fs = [g["name"] for g in rt.get("fields", []) if base(g["type"]) in self.leaf_names and not g["args"]]
+            return fs + ["__typename"]
+        out = []
+        for _ in range(3):
+            a, b2 = r.choice(sels()), r.choice(sels())
+            narrow = r.choice(impl)
+            first = f"{f['name']} {{ {a} }}"
+            again = f"... on {narrow} {{ {f['name']} {{ k2: {b2} }} }}"
+            body = f"{first} {again}" if r.random() < 0.6 else f"{again} {first}"
+            out.append("{ mixed { __typename " + body + " } }")
+        return out
 
     def gen_env(self, adv=0.0, fail=0.0):
         """resolver environment: root fields of Query/Mutation get explicit resolvers"""
@@ -388,7 +437,7 @@ class DocGen:
         if vars_ is not None and r.random() < 0.3:
             return vvar(self.new_var(ty, vars_))
         lit = self.sg.const_literal(ty, depth)
-        if vars_ is not None and self.nested_vars and r.random() < 0.35:
+        if vars_ is not None and self.nested_vars and r.random() < (0.35 if self.nested_vars is True else self.nested_vars):
             lit = self.nest_vars(ty, lit, vars_)
         return lit
 
@@ -428,6 +477,16 @@ class DocGen:
         b = r.random() < 0.5
         return f" @{name}(if: {'true' if b else 'false'})", (not b if name == "skip" else b)
 
+    def hot_fields(self, fields):
+        """fields returning an interface with >= 2 runtime types and a composite field: where per-runtime-type
+        collection and merged sub-selections meet"""
+        out = []
+        for f in fields:
+            b = base(f["type"])
+            if b in self.sg.iface_names and len(self.sg.possible(b)) >= 2 and any(base(g["type"]) not in self.sg.leaf_names for g in self.sg.tdef(b)["fields"]):
+                out.append(f)
+        return out
+
     def selection_set(self, tn, depth, vars_):
         """text of a selection set on composite type `tn` (object / interface / union)"""
         r = self.r
@@ -442,7 +501,7 @@ class DocGen:
                 leafs = [f for f in fields if base(f["type"]) in self.sg.leaf_names]
                 items.append(self.field_text(r.choice(leafs), depth, vars_) if leafs else "__typename")
             elif fields and k < 0.6:
-                items.append(self.field_text(r.choice(fields), depth, vars_))
+                items.append(self.field_text(r.choice(fields + self.hot_fields(fields) * 3), depth, vars_))
             elif k < 0.7:
                 items.append("__typename")
             elif k < 0.85 and depth <= 4:
@@ -457,15 +516,17 @@ class DocGen:
         # merge booster: select an already selected composite field again, with another sub-selection,
         # plainly or under a narrower type condition (merged sub-selections, per-runtime-type collection)
         comp = [f for f in fields if base(f["type"]) not in self.sg.leaf_names and not any(is_nn(a["type"]) and not a.get("default") for a in f["args"])]
-        if comp and depth <= 2 and self.stats["fields"] < 40 and r.random() < 0.3:
+        abstract = t["kind"] == "interface" and len(self.sg.possible(tn)) >= 2
+        if comp and depth <= (3 if abstract else 2) and self.stats["fields"] < 40 and r.random() < (0.7 if abstract else 0.3):
             f = r.choice(comp)
             again = f"{f['name']} " + self.selection_set(base(f["type"]), depth + 1, vars_)
             first = f"{f['name']} " + self.selection_set(base(f["type"]), depth + 1, vars_)
             narrower = [c for c in self.sg.possible(tn) if c != tn]
-            if narrower and r.random() < 0.6:
+            if narrower and r.random() < (0.85 if abstract else 0.6):
                 again = f"... on {r.choice(narrower)} {{ {again} }}"
             items += [first, again] if r.random() < 0.7 else [again, first]
             self.stats["merged"] += 1
+            if abstract and again.startswith("..."): self.stats["abstract_merged"] = self.stats.get("abstract_merged", 0) + 1
         # the same leaf key selected again later with a (variable) directive: merged nodes with different directives
         if fields and vars_ is not None and self.repeat_with_directive and r.random() < 0.35:
             leafs = [f for f in fields if base(f["type"]) in self.sg.leaf_names and not f["args"]]
